@@ -179,7 +179,7 @@ def makeheredoc (id : Nat) (killleading : Bool) : M Unit := do
   let l ← get
   let pos := if cell.pos.2 + 1 == startpos then (cell.pos.1, endpos) else cell.pos
   let cell' : RedirCell :=
-    { cell with heredoc := some (Node.heredoc (startpos, endpos) document), pos := pos }
+    { cell with heredoc := some ((startpos, endpos), document), pos := pos }
   set { l with store := l.store.set id cell' }
 
 /-- `heredoc.gatherheredocuments(tokenizer)` -/
